@@ -3,7 +3,9 @@
 Explicit-state exploration of edit / restart / evaluate histories over the generated program family; every
 value returned by dds is compared with the value the dds-free reference (same files, stub dds) returns.
 """
-from ..progmc import driver
+from .. import pool
+from ..core import Violation
+from ..progmc import driver, placement
 
 P = "C01"
 
@@ -15,10 +17,24 @@ def run(tier, seed):
                 "composites: call-graph shapes over <= 4 kept nodes x node styles) x entry style x store; all histories of "
                 "(variant of the edit cube, in-process edit | restart, evaluate) up to the depth of the tier; states = distinct "
                 "(program, variant, entry) evaluated, transitions = evaluations, each compared with the reference run"})
+    # where the code lives: the same programs as __main__ scripts (one interpreter per step) and IPython cells
+    pitems = placement.placement_plan(tier)
+    nsteps = 0
+    for probs, n in pool.pmap(placement.placement_job, pitems, chunk=2):
+        nsteps += n
+        for prop, key, what, case in probs:
+            if prop == P:
+                res.violations.append(Violation(P, key, what, case))
+    res.coverage["transitions"] += nsteps
+    res.coverage["traces_validated_against_impl"] += nsteps
+    res.coverage["placement_runs"] = {"programs_x_entries_x_placements": len(pitems), "steps": nsteps}
     res.assumptions = ["reference = the same generated files imported with a stub dds package (keep/eval just call)",
                        "an exception is accepted only as a coded refusal raised before any body ran"]
     return res
 
 
 def replay(case):
+    if case.get("mode") == "placement":
+        probs, _ = placement.placement_job([(case["spec"], case["entry"], case["placement"])])[0]
+        return [Violation(P, k, w, case) for pr, k, w, _ in probs if pr == P]
     return driver.replay(P, case)
